@@ -516,7 +516,9 @@ fn line_space(thorough: bool) -> Vec<Line> {
             v.push(Line::Header { key: k, value: Some(val) });
         }
     }
-    for n in ["S.kt", "R8$$SyntheticClass", "a b.java", "\u{e9}.kt", ""] {
+    // file names with backslashes (Windows paths; a trailing or doubled backslash must not be read as an escape), braces,
+    // and the characters of the JSON frame itself except the closing quote
+    for n in ["S.kt", "R8$$SyntheticClass", "a b.java", "\u{e9}.kt", "", "src\\", "C:\\dir\\F.java", "a\\\\", "\\", "a}b", "{x}", "a,b:c", "a\\n", "\u{e9}\\"] {
         v.push(Line::SourceFile(n));
     }
     // fields
